@@ -377,31 +377,94 @@ func snapshotFn(c *Ctx, root, f *ssa.Function, ctxs []*ssa.Call, recvT string) {
 		walk(body)
 		return found
 	}
+	// conditions outside the loops under which a whole pass is skipped (`if len(result) == 0 { second pass }`): a pass that does
+	// not run places nothing. They are enumerated like the element predicates; a combination under which no pass runs at all is
+	// an emptiness shortcut and is not a case.
+	inAnyLoop := func(b *ssa.BasicBlock) bool {
+		for _, sl := range loops {
+			if sl.l.Body[b] {
+				return true
+			}
+		}
+		return false
+	}
+	type gfact struct {
+		cond ssa.Value
+		val  bool
+	}
+	gfacts := map[*snapLoop][]gfact{}
+	var gconds []ssa.Value
+	for _, sl := range loops {
+		for _, bf := range eng.BranchFacts(sl.l.Header) {
+			ci, isI := bf.Cond.(ssa.Instruction)
+			if isI && inAnyLoop(ci.Block()) {
+				continue
+			}
+			gfacts[sl] = append(gfacts[sl], gfact{bf.Cond, bf.Val})
+			dup := false
+			for _, g := range gconds {
+				if g == bf.Cond {
+					dup = true
+				}
+			}
+			if !dup {
+				gconds = append(gconds, bf.Cond)
+			}
+		}
+	}
+	if len(gconds) > 4 {
+		c.Undecided("SNAPSHOT", key+":case-analysis", p.Pos(f.Pos()), fmt.Sprintf("%d conditions guard the passes over the list: too many for the case analysis", len(gconds)))
+		return
+	}
 	okAll, okOnce := true, true
 	why := ""
-	for mask := 0; mask < 1<<len(ks); mask++ {
-		A := map[string]bool{}
-		var desc []string
-		for i, k := range ks {
-			A[k] = mask&(1<<i) != 0
-			desc = append(desc, fmt.Sprintf("p%d=%v", i, A[k]))
+	for gmask := 0; gmask < 1<<len(gconds); gmask++ {
+		G := map[ssa.Value]bool{}
+		for i, g := range gconds {
+			G[g] = gmask&(1<<i) != 0
 		}
-		must, may := 0, 0
+		var running []*snapLoop
 		for _, sl := range loops {
-			if placed(sl, A) {
-				must++
+			runs := true
+			for _, gf := range gfacts[sl] {
+				if G[gf.cond] != gf.val {
+					runs = false
+				}
 			}
-			if mayPlace(sl, A) {
-				may++
+			if runs {
+				running = append(running, sl)
 			}
 		}
-		if must == 0 {
-			okAll = false
-			why = "case " + strings.Join(desc, ",")
+		if len(running) == 0 {
+			continue
 		}
-		if may > 1 {
-			okOnce = false
-			why = "case " + strings.Join(desc, ",")
+		for mask := 0; mask < 1<<len(ks); mask++ {
+			A := map[string]bool{}
+			var desc []string
+			for i, k := range ks {
+				A[k] = mask&(1<<i) != 0
+				desc = append(desc, fmt.Sprintf("p%d=%v", i, A[k]))
+			}
+			if len(running) < len(loops) {
+				desc = append(desc, fmt.Sprintf("with %d of %d passes skipped by a condition outside the loops", len(loops)-len(running), len(loops)))
+			}
+			must, may := 0, 0
+			for _, sl := range running {
+				if placed(sl, A) {
+					must++
+				}
+				if mayPlace(sl, A) {
+					may++
+				}
+			}
+			if must == 0 {
+				okAll = false
+				why = "case " + strings.Join(desc, ",")
+			}
+			if may > 1 {
+				okOnce = false
+				why = "case " + strings.Join(desc, ",")
+			}
 		}
 	}
 	c.Check("SNAPSHOT", key+":every-key-is-placed-in-every-case", p.Pos(f.Pos()), okAll, fmt.Sprintf("for some last-client-IP state (%s; predicates: %s) no loop places the current key into the snapshot: that key is missing and its clients are rejected", why, strings.Join(ks, " | ")))
